@@ -244,12 +244,65 @@ def _run_pool(fn, args, jobs, hard):
     return out
 
 
+def _unit_worker(args):
+    """run-time contracts on the two name-collision retry loops in isolation (cheap, so many seeds): exactly the
+    requested number of distinct, well-formed definitions, the i-th definition carrying the i-th requested probability"""
+    tree, cfg, seeds = args
+    import numpy as np
+    G = _import(tree)
+    ns, no, npc, ne, npe = cfg
+    out = []
+    for seed in seeds:
+        rec = {"params": {"unit": "retry-loops", "num_services": ns, "num_os": no, "num_processes": npc,
+                          "num_exploits": ne, "num_privescs": npe}, "seed": seed, "violations": [], "solvable": None}
+        try:
+            g = G()
+            g._generate_os(no); g._generate_services(ns); g._generate_processes(npc)
+            np.random.seed(seed)
+            eprobs = [round(0.05 + 0.9 * (i + 1) / (ne + 1), 4) for i in range(ne)]
+            pprobs = [round(0.05 + 0.9 * (i + 1) / (npe + 1), 4) for i in range(npe)]
+            g._generate_exploits(ne, 2.5, list(eprobs))
+            g._generate_privescs(npe, 3.5, list(pprobs))
+            for lab, tab, n, key, pool, probs, cost in (("exploits", g.exploits, ne, "service", g.services, eprobs, 2.5),
+                                                        ("privescs", g.privescs, npe, "process", g.processes, pprobs, 3.5)):
+                if len(tab) != n: rec["violations"].append(f"C15.num-{lab}")
+                pairs = [(d[key], d["os"]) for d in tab.values()]
+                if len(set(pairs)) != len(pairs): rec["violations"].append(f"C15.{lab}-distinct-pairs")
+                if any(d[key] not in pool or (d["os"] is not None and d["os"] not in g.os) for d in tab.values()):
+                    rec["violations"].append(f"C15.{lab[:-1]}-refs")
+                if sorted(float(d["prob"]) for d in tab.values()) != sorted(probs): rec["violations"].append(f"C15.{lab[:-1]}-probs")
+                if any(d["cost"] != cost for d in tab.values()): rec["violations"].append(f"C15.{lab[:-1]}-cost")
+            if not (any(d["os"] is None for d in g.privescs.values()) or
+                    all(any(d["os"] == o for d in g.privescs.values()) for o in g.os)):
+                rec["violations"].append("C16.G3-escalation-for-every-os")
+        except Exception as e:      # noqa
+            rec["violations"].append(f"C15.generate-raised:{type(e).__name__}:{str(e)[:80]}")
+        if rec["violations"]:
+            out.append(rec)
+    out.append({"params": {"unit": "retry-loops", "cfg": list(cfg)}, "seed": None, "violations": [], "solvable": None,
+                "unit_runs": len(seeds)})
+    return out
+
+
+UNIT_CFGS = [(2, 2, 2, 2, 2), (2, 1, 2, 3, 2), (3, 2, 3, 4, 3), (1, 2, 3, 2, 2), (3, 3, 3, 3, 3), (2, 2, 4, 5, 3)]
+
+
 def run_grid(tree, tier, jobs=16):
     g = grid(tier)
     seeds = [0, 1, 2] if tier == "quick" else list(range(8))
     args = [(tree, p, seeds) for p in g]
     res = _run_pool(_worker, args, jobs, 120 if tier == "quick" else 600)
+    useeds = list(range(150 if tier == "quick" else 1000))
+    uargs = [(tree, cfg, useeds) for cfg in UNIT_CFGS if in_known_hang_class(
+        dict(num_services=cfg[0], num_os=cfg[1], num_processes=cfg[2], num_exploits=cfg[3], num_privescs=cfg[4])) is None]
+    ures = _run_pool(_unit_worker, uargs, jobs, 120 if tier == "quick" else 600)
     flat = []
+    for a, rs in zip(uargs, ures):
+        if isinstance(rs, dict) and rs.get("error"):
+            flat.append({"params": {"unit": "retry-loops", "cfg": list(a[1])}, "seed": 0, "solvable": None,
+                         "violations": [f"C15.generate-did-not-terminate-or-crashed:{rs['error'][:80]}"]})
+        else:
+            flat.extend(r for r in rs if r["violations"])
     for a, rs in zip(args, res):
         if isinstance(rs, dict) and rs.get("error"):
             flat.append({"params": a[1], "seed": a[2][0], "solvable": None,
